@@ -169,8 +169,9 @@ Section ScramServer.
     end.
 
   (* server-first-message for client nonce [cn] and server nonce part [sn] *)
-  Definition server_first (cn sn : bytes) (a : stored) : bytes :=
-    bs "r=" ++ cn ++ sn ++ bs ",s=" ++ b64enc (sv_salt a) ++ bs ",i=" ++ dec_of_N (N.of_nat (sv_iter a)).
+  (* [ext]: optional extensions after the iteration count (RFC 5802 section 7), empty or "," attr-val *("," attr-val) *)
+  Definition server_first (cn sn : bytes) (a : stored) (ext : bytes) : bytes :=
+    bs "r=" ++ cn ++ sn ++ bs ",s=" ++ b64enc (sv_salt a) ++ bs ",i=" ++ dec_of_N (N.of_nat (sv_iter a)) ++ ext.
 
   (* client-final-message = "c=" base64(cbind-input) ",r=" nonce ",p=" base64(proof).
      Acceptance: channel binding equals gs2 header ++ cb data, nonce is the combined nonce,
@@ -200,7 +201,8 @@ Section ScramServer.
      configuration: is the mechanism a -PLUS variant, the channel binding the server's end of the connection reports
      (type name and data), the server's part of the nonce; the account database maps the (unescaped) user name to the
      stored credentials *)
-  Record srv_cfg := { sc_plus : bool; sc_cbname : bytes; sc_cbdata : bytes; sc_snonce : bytes }.
+  Record srv_cfg := { sc_plus : bool; sc_cbname : bytes; sc_cbdata : bytes; sc_snonce : bytes;
+                      sc_ext : bytes (* extensions appended to the server-first-message *) }.
 
   Record srv_state := { sx_acct : stored; sx_gs2 : bytes; sx_bare : bytes; sx_sfirst : bytes; sx_combined : bytes }.
 
@@ -217,7 +219,7 @@ Section ScramServer.
         match db user with
         | None => None
         | Some a =>
-            let sf := server_first cn (sc_snonce c) a in
+            let sf := server_first cn (sc_snonce c) a (sc_ext c) in
             Some ({| sx_acct := a; sx_gs2 := gs2; sx_bare := bare; sx_sfirst := sf; sx_combined := cn ++ sc_snonce c |}, sf)
         end
     end.
